@@ -3,11 +3,11 @@ SPECIFICATION TraceSpec
 CONSTANTS
   Clients = {1, 2, 3}
   Keys = {1}
-  Senders = {1, 2, 7, 8}
-  Targets = {1, 2}
+  Senders = {1, 2, 3, 7, 8}
+  Targets = {1, 2, 3}
   DnsPort = {2, 8}
-  Allowed = {1, 2}
-  Unsendable = {}
+  Allowed = {1, 2, 3}
+  Unsendable = {3}
   DisarmFirst = TRUE
   T = 2
   DNST = 4
